@@ -245,7 +245,9 @@ def judgeFind (d : DictRt) (app : Nat) (as : List AVP) (mode : String) (codes : 
   let render (r : Option (List AVP)) := match r with | some l => showAVPs l | none => "err"
   let implOut := impl.getD 0 ""
   { model := render modelRes,
-    fails := if implOut ≠ render specRes then [s!"C20:{mode}-differs-from-reference-walk"] else [],
+    fails := (if implOut ≠ render specRes then [s!"C20:{mode}-differs-from-reference-walk"] else []) ++
+             (if impl.any (·.startsWith "again=") then ["C20:same-query-again-answers-differently"] else []) ++
+             (if impl.any (· = "tree=changed") then ["C20:search-changed-the-message"] else []),
     tags := [s!"{mode} hits={(specRes.getD []).length} depth={depthL as}"],
     nontrivial := true }
 
